@@ -17,6 +17,9 @@ import GLua.Proofs.LoweringValue
 namespace GLua.CompileWf
 open GLua.Compile GLua.MiniVM GLua.Lowering
 
+variable [NumStruct]
+set_option linter.unusedSectionVars false
+
 /-! ### patchCode's register high-water mark as a fold -/
 
 def mrFrom (m : Nat) (code : List Instr) : Nat := code.foldl (fun m i => maxregOf i m) m
@@ -71,6 +74,10 @@ def IOK (cs : List Konst) (m : Nat) : Instr → Prop
   | .nop _ => False
   | .eval _ id => (findIdx cs (gname id)).isSome = true
   | .setg a id => a ≤ m ∧ (findIdx cs (gname id)).isSome = true
+  | .arith _ _ b c => RKR cs.length m b ∧ RKR cs.length m c
+  | .unm _ b => b ≤ m
+  | .len _ b => b ≤ m
+  | .concat _ b c => b ≤ c ∧ c ≤ m
   | .ret a b => 1 ≤ b ∧ (2 ≤ b → a + b ≤ m + 2)
   | .abc op a b c => op = Generated.OP_VARARG ∧ a = 0 ∧ 2 ≤ b ∧ c = 0
 
@@ -122,6 +129,10 @@ theorem IOK.mono {cs cs' : List Konst} {m m' : Nat} {i : Instr} (h : IOK cs m i)
   case le => exact ⟨h.1, h.2.1.mono hl hm, h.2.2.mono hl hm⟩
   case eval => exact findIdx_isSome_prefix hp h
   case setg => exact ⟨by omega, findIdx_isSome_prefix hp h.2⟩
+  case arith => exact ⟨h.1.mono hl hm, h.2.mono hl hm⟩
+  case unm => omega
+  case len => omega
+  case concat => omega
   case ret => exact ⟨h.1, fun hb => by have := h.2 hb; omega⟩
   case abc => exact h
 
@@ -230,12 +241,20 @@ theorem inv_constIndex {st : CState} (k : Konst) (h : Inv st) : Inv (constIndex 
 theorem inv_setRegTop {st : CState} (t : Nat) (h : Inv st) (ht : t ≤ mr st.code + 1) : Inv { st with regTop := t } :=
   ⟨h.scan, h.lbl, ht⟩
 
-/-- `ConstIndex` returns an index inside the (new) pool at which `findIdx` finds the constant. -/
-theorem constIndex_find (st : CState) (k : Konst) :
-    findIdx (constIndex st k).1.consts k = some (constIndex st k).2 ∧ (constIndex st k).2 < (constIndex st k).1.consts.length := by
+/-- `ConstIndex` returns an index inside the (new) pool. -/
+theorem constIndex_lt (st : CState) (k : Konst) : (constIndex st k).2 < (constIndex st k).1.consts.length := by
+  have h := (constIndex_spec st k).1
+  by_cases hlt : (constIndex st k).2 < (constIndex st k).1.consts.length
+  · exact hlt
+  · simp [List.getElem?_eq_none (Nat.le_of_not_lt hlt)] at h
+
+/-- … and for a constant that is not a NaN (strings, in particular global names) `findIdx` finds it there. -/
+theorem constIndex_find (st : CState) (k : Konst) (hn : k.isNaN = false) :
+    findIdx (constIndex st k).1.consts k = some (constIndex st k).2 := by
   unfold constIndex
+  simp only [hn, Bool.false_eq_true, if_false]
   cases h : findIdx st.consts k with
-  | some i => exact ⟨h, findIdx_lt h⟩
+  | some i => exact h
   | none =>
     have : ∀ (cs : List Konst), findIdx cs k = none → findIdx (cs ++ [k]) k = some cs.length := by
       intro cs
@@ -250,7 +269,7 @@ theorem constIndex_find (st : CState) (k : Konst) :
           cases hr : findIdx r k with
           | some j => simp [hr] at hn
           | none => simp [findIdx, hc, ih hr]
-    exact ⟨this _ h, by simp⟩
+    exact this _ h
 
 /-! ### two-state frame: the result satisfies the invariant, the code only grew, the register top is unchanged -/
 
